@@ -416,17 +416,37 @@ fn substring(
 ) -> error::Result<model::Value> {
     let mut args = args.iter();
     let v = String::try_from(args.next().unwrap())?;
-    let s = f64::try_from(args.next().unwrap())?.round() as usize - 1;
-    let c = if let Some(v) = args.next() {
-        Some(f64::try_from(v)?.round() as usize)
+    let start = f64::try_from(args.next().unwrap())?;
+    let length = if let Some(v) = args.next() {
+        Some(f64::try_from(v)?)
     } else {
         None
     };
-    let (_, mut r) = v.split_at(s);
-    if let Some(c) = c {
-        (r, _) = r.split_at(c);
+    let range = substring_range(v.chars().count(), start, length);
+    let r: String = v
+        .chars()
+        .skip(range.start)
+        .take(range.end - range.start)
+        .collect();
+    Ok(model::Value::Text(r))
+}
+
+/// The characters XPath 1.0 4.2 selects for `substring(s, start[, length])` in a string of `len` characters:
+/// those at positions p (counted from 1) with `round(start) <= p < round(start) + round(length)`,
+/// as a range of 0-based character indices. NaN selects nothing; infinities behave as in IEEE 754.
+fn substring_range(len: usize, start: f64, length: Option<f64>) -> Range<usize> {
+    let first = xpath_round(start);
+    let end = match length {
+        Some(l) => first + xpath_round(l),
+        None => f64::INFINITY,
+    };
+    if first.is_nan() || end.is_nan() {
+        return 0..0;
     }
-    Ok(model::Value::Text(r.to_string()))
+    // `as usize` saturates: a negative number becomes 0, a too large one usize::MAX
+    let lo = ((first - 1.0).max(0.0) as usize).min(len);
+    let hi = ((end - 1.0).max(0.0) as usize).min(len);
+    lo..hi.max(lo)
 }
 
 fn string_length(
@@ -595,10 +615,14 @@ fn round(
     _: &mut model::Context,
 ) -> error::Result<model::Value> {
     let arg = f64::try_from(args.first().unwrap())?;
-    // XPath 1.0 4.4: a tie goes towards positive infinity (f64::round goes away from zero)
+    Ok(model::Value::Number(xpath_round(arg)))
+}
+
+/// XPath 1.0 4.4: the closest integer; a tie goes towards positive infinity (f64::round goes away from zero)
+fn xpath_round(arg: f64) -> f64 {
     let floor = arg.floor();
     let rounded = if arg - floor >= 0.5 { floor + 1.0 } else { floor };
-    Ok(model::Value::Number(rounded.copysign(arg)))
+    rounded.copysign(arg)
 }
 
 // -----------------------------------------------------------------------------------------------
